@@ -3831,6 +3831,11 @@ PPL::Polyhedron::topological_closure_assign() {
   if (marked_empty() || space_dim == 0) {
     return;
   }
+  // Emptiness has to be detected before strict inequalities are relaxed:
+  // the closure of an empty polyhedron is empty.
+  if (is_empty()) {
+    return;
+  }
 
   // The computation can be done using constraints or generators.
   // If we use constraints, we will change them, so that having pending
